@@ -230,10 +230,10 @@ Print Assumptions parse_time_dispatch.
    walked into exactly the streams it was written from, and is answered with one faithful row per written element *)
 Theorem decode_faithful_loki_json_document :
   forall (uletter udigit : string -> bool) (rfc : string -> option Z) fp enc_len CS cache_add cache0 threshold flush_limit ctx_ttl
-         (rest : list jv) (ws : list wstream),
+         (ints : N -> option Z) (rest : list jv) (ws : list wstream),
   Forall (fun s => Forall wvalue_ok (snd s)) ws ->
   let streams := map wstream_stream ws in
-  push_members uletter udigit rfc (push_doc rest ws) = Some (map members_of streams) /\
+  push_members uletter udigit rfc (push_doc ints rest ws) = Some (map members_of streams) /\
   exists cs, decode fp enc_len CS cache_add cache0 threshold flush_limit ctx_ttl (BLoki (map members_of streams)) = Done cs /\
              Forall chunk_rect cs /\ rows_of cs = rows_spec fp ctx_ttl (entries_loki_streams streams).
 Proof.
@@ -308,7 +308,7 @@ Example json_document_hypotheses_met :
   let ws : list wstream := [([("app", "a"); ("9x", "b")]%string, [(true, [1; 7]%N, "before 1970"%string, None); (false, [0; 5]%N, "x"%string, Some 7%N)]);
                             ([("app", "b")]%string, [])] in
   Forall (fun s => Forall wvalue_ok (snd s)) ws /\
-  push_members (fun _ => false) (fun _ => false) (fun _ => None) (push_doc [JObj [("trace_id"%string, JStr "abc")]] ws)
+  push_members (fun _ => false) (fun _ => false) (fun _ => None) (push_doc (fun _ => None) [JObj [("trace_id"%string, JStr "abc")]] ws)
   = Some (map (fun s => members_of (wstream_stream s)) ws) /\
   map (fun s => map le_ts (ls_entries (wstream_stream s))) ws = [[-17; 5]; []].
 Proof.
